@@ -11,9 +11,12 @@
         `C09.key_eq_iff`,
     (C) instantiates (A) with (B).
   Remaining hypotheses of (B), all named in `RealKey`: the hash function `H` is injective and its digests contain no
-  `_` (as in C09); the rendering of the structured command to its text is injective; the rendering of an output hash
-  is shorter than 2^64 bytes; the command's result does not depend on the order / duplicates of its inputs and the
-  order of its dependency hashes (`runCongr`); commands write exactly the outputs they name and nothing else.
+  `_` (as in C09); an output-hash string is shorter than 2^64 bytes (a digest); the renderings (command text, output-hash
+  string of a dependency) do not collide ON WHAT OCCURS (`Universe`: the targets, file contents and dependency output
+  hashes of the histories under consideration) and the command's result does not depend on the order / duplicates in which
+  inputs and dependencies are listed (`runCongr`); output hashes produced from what occurs occur (`closed`); commands
+  write exactly the outputs they name and nothing else. `exRealKey` is an instance with a command that copies the content
+  of its dependency, `ex_build_succeeds` a two-target build over it that succeeds.
 -/
 import GrogModel.Lemmas.BuildNoop
 import GrogModel.Props.C09
@@ -190,74 +193,67 @@ structure Render where
 def outDefR (o : OutDef) : Bytes :=
   (if o.dir then [100, 105, 114, 58, 58] else [102, 105, 108, 101, 58, 58]) ++ o.path
 
-/-- INTERIM rendering of the dependency part of the key. Since the repair of the dependency-identity defect the real key
-    ties every dependency output hash to the dependency's *label* (`hashTargetDefinition` writes label/hash pairs). The
-    build model's key-state carries the hashes in the order of the target's `hdeps` but not the labels themselves, so the
-    label of the i-th dependency is rendered as its position (`u64be i`): for one target definition positions and labels
-    determine each other. Replacing this by the real labels needs `Exec.KeyState.deps : List (Lbl × OH κ)`. -/
-def depPairsFrom (R : Render) : Nat → List (OH Bytes) → List (Bytes × Bytes)
-  | _, [] => []
-  | i, oh :: t => (u64be i, R.ohR oh) :: depPairsFrom R (i + 1) t
-
-theorem depPairs_snd (R : Render) : ∀ (i : Nat) (l : List (OH Bytes)), (depPairsFrom R i l).map Prod.snd = l.map R.ohR
-  | _, [] => rfl
-  | i, _ :: t => by simp [depPairsFrom, depPairs_snd R (i + 1) t]
-
-theorem depPairs_length (R : Render) : ∀ (i : Nat) (l : List (OH Bytes)), (depPairsFrom R i l).length = l.length
-  | _, [] => rfl
-  | i, _ :: t => by simp [depPairsFrom, depPairs_length R (i + 1) t]
-
-theorem depPairs_mem (R : Render) : ∀ (i : Nat) (l : List (OH Bytes)) (p : Bytes × Bytes), p ∈ depPairsFrom R i l →
-    ∃ j oh, i ≤ j ∧ j < i + l.length ∧ p = (u64be j, R.ohR oh)
-  | _, [], _, h => by cases h
-  | i, oh :: t, p, h => by
-    simp only [depPairsFrom, List.mem_cons] at h
-    rcases h with rfl | h
-    · exact ⟨i, oh, Nat.le_refl _, by simp, rfl⟩
-    · obtain ⟨j, oh', h1, h2, h3⟩ := depPairs_mem R (i + 1) t p h
-      exact ⟨j, oh', by omega, by simp; omega, h3⟩
-
-theorem depPairs_nodup (R : Render) : ∀ (i : Nat) (l : List (OH Bytes)), i + l.length ≤ 2 ^ 64 →
-    ((depPairsFrom R i l).map Prod.fst).Nodup
-  | _, [], _ => by simp [depPairsFrom]
-  | i, oh :: t, h => by
-    simp only [depPairsFrom, List.map_cons, List.nodup_cons]
-    refine ⟨?_, depPairs_nodup R (i + 1) t (by simp at h; omega)⟩
-    intro hm
-    obtain ⟨p, hp, he⟩ := List.mem_map.1 hm
-    obtain ⟨j, oh', h1, h2, h3⟩ := depPairs_mem R (i + 1) t p hp
-    rw [h3] at he
-    have : j = i := u64be_inj (by simp at h; omega) (by simp at h; omega) he
-    omega
+/-- the dependency part of the key: `hashTargetDefinition` writes one (dependency label, output hash) pair per direct
+    dependency (`writeFramedKeyValues`, ordered by label). An output hash by itself covers only the *package-relative*
+    identifiers of the outputs, not the package: it is the label that says whose outputs they are
+    (`unlabelled_deps_blind_witness` below is the defect the labels repaired). -/
+def depPairs (R : Render) (l : List (Lbl × OH Bytes)) : List (Bytes × Bytes) := l.map fun d => (d.1, R.ohR d.2)
 
 def render (R : Render) (ks : Exec.KeyState Bytes) : Grog.KeyState :=
   { label := ks.label, command := R.cmdR ks.cmd, inputs := ks.inputs.map (·.1), content := contentOf ks.inputs,
-    outputs := ks.outs.map outDefR, deps := depPairsFrom R 0 ks.deps, fingerprint := ks.fp, platform := some ks.plat }
+    outputs := ks.outs.map outDefR, deps := depPairs R ks.deps, fingerprint := ks.fp, platform := some ks.plat }
 
 /-- the build parameters with the real key: `GetTargetChangeHash` of the rendered key-state -/
 def realParams (R : Render) (run : Cmd → View → RunRes) (fx : Fixes) : Params Bytes :=
   { K := fun ks => key R.H (render R ks), run := run, fx := fx }
 
-/-- admissible: the size conditions of C09 (`WFState`: every hashed component shorter than 2^64 bytes, distinct
-    fingerprint keys) and consistent duplicates among the inputs -/
-def realAdm (R : Render) : AdmSpec Bytes :=
-  { ks := fun ks => C09.WFState (render R ks) ∧ Functional ks.inputs,
-    tgt := fun t => Small t.label ∧ Small (R.cmdR t.cmd) ∧ SmallList t.inputs ∧ SmallList (t.outs.map outDefR) ∧
-      t.hdeps.length < 2 ^ 64 ∧ SmallKV t.fp ∧ (t.fp.map Prod.fst).Nodup ∧ Small t.plat,
-    val := Small }
+/-- **What occurs.** The command text and the output-hash strings are produced by functions with a bounded image
+    (an output hash is a digest), so they cannot be injective on all structured values. What the composition needs is
+    that they do not collide *on what occurs* in the histories under consideration: the target definitions `T`, the
+    file contents `V` and the dependency output hashes `O`. A user of the theorems picks these sets (for a concrete
+    history they are finite); `RealKey.closed` asks that `O` contains every output hash a run over them produces. -/
+structure Universe where
+  T : Target → Prop
+  V : Val → Prop
+  O : OH Bytes → Prop
+
+/-- the occurring key-states: an occurring target on occurring input contents and occurring dependency hashes -/
+def Universe.KS (U : Universe) (ks : Exec.KeyState Bytes) : Prop :=
+  ∃ (t : Target) (fs : FS) (ohs : List (OH Bytes)), U.T t ∧ (∀ p ∈ t.inputs, ∀ v, fs p = some v → U.V v) ∧
+    (∀ oh ∈ ohs, U.O oh) ∧ ohs.length = t.hdeps.length ∧ ks = keyState t fs ohs
+
+/-- the size conditions of C09 on a target (`WFState`: every hashed component shorter than 2^64 bytes, distinct
+    fingerprint keys; the dependencies are a set of labels) -/
+def SizesOK (R : Render) (t : Target) : Prop :=
+  Small t.label ∧ Small (R.cmdR t.cmd) ∧ SmallList t.inputs ∧ SmallList (t.outs.map outDefR) ∧
+    SmallList t.hdeps ∧ t.hdeps.Nodup ∧ SmallKV t.fp ∧ (t.fp.map Prod.fst).Nodup ∧ Small t.plat
+
+/-- admissible: the size conditions of C09, consistent duplicates among the inputs, and "occurs" -/
+def realAdm (R : Render) (U : Universe) : AdmSpec Bytes :=
+  { ks := fun ks => C09.WFState (render R ks) ∧ Functional ks.inputs ∧ U.KS ks,
+    tgt := fun t => SizesOK R t ∧ U.T t,
+    val := fun v => Small v ∧ U.V v,
+    oh := U.O }
 
 /-- what remains a hypothesis about the real key and the commands -/
-structure RealKey (R : Render) (run : Cmd → View → RunRes) : Prop where
-  /-- the hash function does not collide (C09; nothing is claimed about xxh3 / SHA-256) -/
+structure RealKey (R : Render) (run : Cmd → View → RunRes) (U : Universe) : Prop where
+  /-- the hash function does not collide (the idealisation of C09; nothing is claimed about xxh3 / SHA-256) -/
   hH : ∀ x y, R.H x = R.H y → x = y
   /-- its printed digest contains no `_` (hex) -/
   hU : ∀ x, cUnderscore ∉ R.H x
-  /-- an output hash is printed as a string shorter than 2^64 bytes (it is a digest) -/
+  /-- an output hash is printed as a string shorter than 2^64 bytes (it is a digest of fixed length) -/
   ohSmall : ∀ oh, Small (R.ohR oh)
-  /-- the result of a command depends on the command only through its text, on the inputs only as a set of
-      (path, content) pairs and on the dependency output hashes only as a multiset -/
-  runCongr : ∀ (a b : Exec.KeyState Bytes), R.cmdR a.cmd = R.cmdR b.cmd → (∀ pv, pv ∈ a.inputs ↔ pv ∈ b.inputs) →
-    (a.deps.map R.ohR).Perm (b.deps.map R.ohR) → run a.cmd (viewOf a) = run b.cmd (viewOf b)
+  /-- **no collision of the rendering on what occurs**: two occurring key-states with the same command text, the same
+      set of (input path, content) pairs and the same (dependency label, output-hash string) pairs give the same result
+      of the command. (Contrapositive: a different result exhibits two occurring states that the rendering — the text of
+      the command or the digest of a dependency's outputs — fails to separate, i.e. an explicit collision; or a command
+      whose result depends on the order in which inputs / dependencies are listed.) -/
+  runCongr : ∀ (a b : Exec.KeyState Bytes), U.KS a → U.KS b → R.cmdR a.cmd = R.cmdR b.cmd →
+    (∀ pv, pv ∈ a.inputs ↔ pv ∈ b.inputs) → (depPairs R a.deps).Perm (depPairs R b.deps) →
+    run a.cmd (viewOf a) = run b.cmd (viewOf b)
+  /-- the output hash that a successful run of an occurring key-state exposes occurs -/
+  closed : ∀ ks, U.KS ks → (run ks.cmd (viewOf ks)).exit0 = true → ∀ nc : Bool,
+    U.O (mkRes nc ks (key R.H (render R ks)) (run ks.cmd (viewOf ks)).outs).oh
   complete : ∀ c v, (run c v).exit0 = true → (run c v).outs.map (·.1) = c.writes
   hermetic : ∀ c v, (run c v).sets = []
 
@@ -281,19 +277,55 @@ theorem pairs_of_stateEq (R : Render) (a b : Exec.KeyState Bytes) (fa : Function
     rw [← h2, he, ← h5, h1]
   rw [← this]; exact hpv'
 
+theorem zip_map_fst {α β : Type} : ∀ (ls : List α) (l : List β), l.length = ls.length → (ls.zip l).map Prod.fst = ls
+  | [], [], _ => rfl
+  | [], _ :: _, h => by simp at h
+  | _ :: _, [], h => by simp at h
+  | a :: ls, b :: l, h => by simp only [List.zip_cons_cons, List.map_cons]; rw [zip_map_fst ls l (by simpa using h)]
+
+/-- the size conditions of C09 hold for the rendered key-state of a target within the size bounds on contents within
+    the size bounds — whatever the dependency hashes are (their strings are digests) -/
+theorem wf_render (R : Render) (hS : ∀ oh, Small (R.ohR oh)) (t : Target) (fs : FS) (ohs : List (OH Bytes)) (ht : SizesOK R t)
+    (hv : ∀ p ∈ t.inputs, ∀ v, fs p = some v → Small v) (hlen : ohs.length = t.hdeps.length) :
+    C09.WFState (render R (keyState t fs ohs)) := by
+  obtain ⟨hl, hc, hi, ho, hd, hdn, hf, hfk, hp⟩ := ht
+  have hfst : (depPairs R (t.hdeps.zip ohs)).map Prod.fst = t.hdeps := by
+    simp only [depPairs, List.map_map, Function.comp_def]
+    exact zip_map_fst t.hdeps ohs hlen
+  refine ⟨hl, hc, ?_, ho, ?_, ?_, hf, hfk, ?_, ?_⟩
+  · show SmallList ((t.inputs.map fun p => (p, fs p)).map (·.1))
+    simpa [List.map_map, Function.comp_def] using hi
+  · show SmallKV (depPairs R (t.hdeps.zip ohs))
+    refine ⟨?_, fun x hx => ?_⟩
+    · have : (depPairs R (t.hdeps.zip ohs)).length = t.hdeps.length := by
+        simp only [depPairs, List.length_map, List.length_zip, hlen, Nat.min_self]
+      rw [this]; exact hd.1
+    · refine ⟨hd.2 x.1 ?_, ?_⟩
+      · rw [← hfst]; exact List.mem_map.2 ⟨x, hx, rfl⟩
+      · obtain ⟨d, _, rfl⟩ := List.mem_map.1 hx; exact hS d.2
+  · show ((depPairs R (t.hdeps.zip ohs)).map Prod.fst).Nodup
+    rw [hfst]; exact hdn
+  · intro p hpp
+    simp only [render, keyState, Option.some.injEq] at hpp
+    rw [← hpp]; exact hp
+  · intro p c hcp
+    have hcp' : contentOf (t.inputs.map fun q => (q, fs q)) p = some c := hcp
+    rw [contentOf_map] at hcp'
+    split at hcp'
+    · rename_i hm; exact hv p hm c hcp'
+    · cases hcp'
+
 /-- **`GoodK` for the real key.** With `K := key H ∘ render`, equal keys of admissible key-states force (by
     `C09.key_eq_iff`) equal label, command text, the same set of (input path, content) pairs, the same declared outputs up
-    to order and the same dependency output hashes up to order — hence, by `runCongr`, the same result of the command. -/
-theorem goodK_real (R : Render) (run : Cmd → View → RunRes) (fx : Fixes) (hR : RealKey R run) :
-    GoodK (realParams R run fx) (realAdm R) where
+    to order and the same (dependency label, output-hash string) pairs — hence, by `runCongr` (no collision of the rendering
+    on what occurs), the same result of the command. -/
+theorem goodK_real (R : Render) (run : Cmd → View → RunRes) (fx : Fixes) (U : Universe) (hR : RealKey R run U) :
+    GoodK (realParams R run fx) (realAdm R U) where
   inj := by
-    rintro a b ⟨wa, fa⟩ ⟨wb, fb⟩ hk
+    rintro a b ⟨wa, fa, ka⟩ ⟨wb, fb, kb⟩ hk
     obtain ⟨h1, h2, h3, h4, h5, h6, _, _⟩ := (C09.key_eq_iff R.H hR.hH hR.hU _ _ wa wb).1 hk
     refine ⟨h1, isEmpty_of_perm_map outDefR a.outs b.outs h5, ?_⟩
-    have h6' : (a.deps.map R.ohR).Perm (b.deps.map R.ohR) := by
-      have := h6.map Prod.snd
-      simpa only [render, depPairs_snd] using this
-    apply hR.runCongr a b h2 _ h6'
+    apply hR.runCongr a b ka kb h2 _ h6
     intro pv
     constructor
     · exact pairs_of_stateEq R a b fa fb h3 h4 pv
@@ -303,25 +335,59 @@ theorem goodK_real (R : Render) (run : Cmd → View → RunRes) (fx : Fixes) (hR
   complete := hR.complete
   hermetic := hR.hermetic
   admKs := by
-    rintro t fs ohs ⟨hl, hc, hi, ho, hd, hf, hfk, hp⟩ hv hlen
-    refine ⟨⟨hl, hc, ?_, ho, ?_, ?_, hf, hfk, ?_, ?_⟩, functional_map fs t.inputs⟩
-    · show SmallList ((t.inputs.map fun p => (p, fs p)).map (·.1))
-      simpa [List.map_map, Function.comp_def] using hi
-    · show SmallKV (depPairsFrom R 0 ohs)
-      refine ⟨by rw [depPairs_length, hlen]; exact hd, fun x hx => ?_⟩
-      obtain ⟨j, oh, _, _, rfl⟩ := depPairs_mem R 0 ohs x hx
-      exact ⟨by show (u64be j).length < 2 ^ 64; rw [length_u64be]; decide, hR.ohSmall oh⟩
-    · show ((depPairsFrom R 0 ohs).map Prod.fst).Nodup
-      exact depPairs_nodup R 0 ohs (by rw [Nat.zero_add, hlen]; exact Nat.le_of_lt hd)
-    · intro p hpp
-      simp only [render, keyState, Option.some.injEq] at hpp
-      rw [← hpp]; exact hp
-    · intro p c hcp
-      have hcp' : contentOf (t.inputs.map fun q => (q, fs q)) p = some c := hcp
-      rw [contentOf_map] at hcp'
-      split at hcp'
-      · rename_i hm; exact hv p hm c hcp'
-      · cases hcp'
+    rintro t fs ohs ⟨hs, hT⟩ hv hoh hlen
+    exact ⟨wf_render R hR.ohSmall t fs ohs hs (fun p hp v h => (hv p hp v h).1) hlen, functional_map fs t.inputs,
+      t, fs, ohs, hT, fun p hp v h => (hv p hp v h).2, hoh, hlen, rfl⟩
+  sepLbl := by
+    rintro t fs ohs t' fs' ohs' ⟨hs, _⟩ ⟨hs', _⟩ hv hv' hlen hlen' hk
+    exact ((C09.key_eq_iff R.H hR.hH hR.hU _ _
+      (wf_render R hR.ohSmall t fs ohs hs (fun p hp v h => (hv p hp v h).1) hlen)
+      (wf_render R hR.ohSmall t' fs' ohs' hs' (fun p hp v h => (hv' p hp v h).1) hlen')).1 hk).1
+  ohOut := by
+    rintro ks ⟨_, _, hks⟩ hx nc
+    exact hR.closed ks hks hx nc
+
+/-- **the defect the labels repaired** (regression witness for the dependency-identity finding). Before the repair the
+    key folded in the dependency output hashes as an unlabelled sorted list, and an output hash covers only
+    package-relative identifiers. With such a rendering (`relOh`: the output's name inside its package and its content)
+    two key-states in which the dependencies `//a:gen` and `//b:gen` (both writing `out`) have *swapped* contents have
+    the same unlabelled multiset of output-hash strings — the same key — although the command reads different bytes;
+    the (label, output hash) pairs of the repaired key differ. -/
+def relName (p : Path) : Path := (p.dropWhile (· != 47)).drop 1
+
+def relOh : OH Bytes → Bytes
+  | .outs l => l.flatMap fun ov => relName ov.1.path ++ [61] ++ ov.2
+  | .nocache l => l.flatMap fun ov => relName ov.1.path ++ [61] ++ ov.2
+  | .self k => k
+
+theorem unlabelled_deps_blind_witness :
+    ∃ (a b : Exec.KeyState Bytes) (R : Render), R.ohR = relOh ∧ a.label = b.label ∧ a.cmd = b.cmd ∧ a.inputs = b.inputs ∧
+      ((a.deps.map fun d => R.ohR d.2).Perm (b.deps.map fun d => R.ohR d.2)) ∧ viewOf a ≠ viewOf b ∧
+      ¬ (depPairs R a.deps).Perm (depPairs R b.deps) := by
+  let la : Lbl := [47, 47, 97, 58, 103]   -- //a:g
+  let lb : Lbl := [47, 47, 98, 58, 103]   -- //b:g
+  let oa : OutDef := ⟨false, [97, 47, 111]⟩   -- a/o
+  let ob : OutDef := ⟨false, [98, 47, 111]⟩   -- b/o
+  let c : Cmd := ⟨[], 0, [], [], false⟩
+  refine ⟨⟨[99], c, [], [], [(la, .outs [(oa, [88])]), (lb, .outs [(ob, [89])])], [], []⟩,
+          ⟨[99], c, [], [], [(la, .outs [(oa, [89])]), (lb, .outs [(ob, [88])])], [], []⟩,
+          ⟨C09.hexId, fun c => c.salt, relOh⟩, rfl, rfl, rfl, rfl, ?_, ?_, ?_⟩
+  · show ([relOh (.outs [(oa, [88])]), relOh (.outs [(ob, [89])])] : List Bytes).Perm
+        [relOh (.outs [(oa, [89])]), relOh (.outs [(ob, [88])])]
+    have e1 : relOh (.outs [(oa, [88])]) = relOh (.outs [(ob, [88])]) := by decide
+    have e2 : relOh (.outs [(ob, [89])]) = relOh (.outs [(oa, [89])]) := by decide
+    rw [e1, e2]
+    exact List.Perm.swap _ _ _
+  · intro h
+    have := congrArg View.deps h
+    revert this
+    decide
+  · intro h
+    have h1 : ((la, relOh (.outs [(oa, [88])])) : Bytes × Bytes) ∈
+        ([(la, relOh (.outs [(oa, [89])])), (lb, relOh (.outs [(ob, [88])]))] : List (Bytes × Bytes)) :=
+      h.subset (by simp [depPairs])
+    revert h1
+    decide
 
 end real
 
@@ -329,54 +395,247 @@ end real
 section instantiated
 
 /-- **C01 for the real key**: from any cache that is sound w.r.t. the real key and any content at the output paths, a
-    mode-`all` build over a well-formed order of admissible targets (sizes < 2^64, distinct fingerprint keys) with admissible
-    input contents succeeds iff the cache-free specification does, and then all declared outputs are byte-identical to it. -/
-theorem build_eq_clean_real (R : Render) (run : Cmd → View → RunRes) (fx : Fixes) (hR : RealKey R run) (hfx : fx.gateChecks = true)
+    mode-`all` build over a well-formed order of admissible targets (sizes < 2^64, distinct fingerprint keys, occurring)
+    with admissible input contents succeeds iff the cache-free specification does, and then all declared outputs are
+    byte-identical to it. -/
+theorem build_eq_clean_real (R : Render) (run : Cmd → View → RunRes) (fx : Fixes) (U : Universe) (hR : RealKey R run U)
+    (hfx : fx.gateChecks = true)
     (cfg : Cfg) (hm : cfg.minimal = false) (w : World Bytes) (order : List Lbl) (hwf : WF w.defs order)
-    (hT : ∀ l ∈ order, ∀ t, w.defs l = some t → (realAdm R).tgt t) (hin : InOk (realAdm R) w.defs order w.fs)
-    (hs : CacheSoundK (realParams R run fx) (realAdm R) w.cache) (fs0 : FS)
+    (hT : ∀ l ∈ order, ∀ t, w.defs l = some t → (realAdm R U).tgt t) (hin : InOk (realAdm R U) w.defs order w.fs)
+    (hs : CacheSoundK (realParams R run fx) (realAdm R U) w.cache) (fs0 : FS)
     (hag : ∀ p, (∀ l ∈ order, ∀ t, w.defs l = some t → p ∉ outPaths t) → w.fs p = fs0 p) :
     (succeeded (build (realParams R run fx) cfg w order) order = true ↔ ∀ l ∈ order, (Spec.clean run w.defs fs0 order).ok l = some true) ∧
     (succeeded (build (realParams R run fx) cfg w order) order = true → ∀ l ∈ order, ∀ t, w.defs l = some t → ∀ p ∈ outPaths t,
       (build (realParams R run fx) cfg w order).fs p = (Spec.clean run w.defs fs0 order).fs p) :=
-  build_eq_cleanK (goodK_real R run fx hR) hfx cfg hm w order hwf hT hin hs fs0 hag
+  build_eq_cleanK (goodK_real R run fx U hR) hfx cfg hm w order hwf hT hin hs fs0 hag
 
 /-- the cache stays sound w.r.t. the real key over every history (C01.cacheSound_preserved) -/
-theorem cacheSound_preserved_real (R : Render) (run : Cmd → View → RunRes) (fx : Fixes) (hR : RealKey R run) (hfx : fx.gateChecks = true)
-    (h : List Step) (w : World Bytes) (hok : HistOKK (realParams R run fx) (realAdm R) w h)
-    (hs : CacheSoundK (realParams R run fx) (realAdm R) w.cache) :
-    CacheSoundK (realParams R run fx) (realAdm R) (runHistory (realParams R run fx) w h).cache :=
-  cacheSoundK_preserved (goodK_real R run fx hR) hfx h w hok hs
+theorem cacheSound_preserved_real (R : Render) (run : Cmd → View → RunRes) (fx : Fixes) (U : Universe) (hR : RealKey R run U)
+    (hfx : fx.gateChecks = true)
+    (h : List Step) (w : World Bytes) (hok : HistOKK (realParams R run fx) (realAdm R U) w h)
+    (hs : CacheSoundK (realParams R run fx) (realAdm R U) w.cache) :
+    CacheSoundK (realParams R run fx) (realAdm R U) (runHistory (realParams R run fx) w h).cache :=
+  cacheSoundK_preserved (goodK_real R run fx U hR) hfx h w hok hs
 
 /-- **C02.noop_rebuild for the real key** -/
-theorem noop_rebuild_real (R : Render) (run : Cmd → View → RunRes) (fx : Fixes) (hR : RealKey R run)
+theorem noop_rebuild_real (R : Render) (run : Cmd → View → RunRes) (fx : Fixes) (U : Universe) (hR : RealKey R run U)
     (cfg : Cfg) (w : World Bytes) (order : List Lbl) (hwf : WF w.defs order)
-    (hT : ∀ l ∈ order, ∀ t, w.defs l = some t → (realAdm R).tgt t) (hin : InOk (realAdm R) w.defs order w.fs)
+    (hT : ∀ l ∈ order, ∀ t, w.defs l = some t → (realAdm R U).tgt t) (hin : InOk (realAdm R U) w.defs order w.fs)
     (hpl : Plain (realParams R run fx) cfg w.defs order)
     (hsucc : succeeded (build (realParams R run fx) cfg w order) order = true) (fs' : FS)
     (hfs : ∀ p, (∀ l ∈ order, ∀ t, w.defs l = some t → p ∉ outPaths t) → fs' p = (build (realParams R run fx) cfg w order).fs p) :
     executed (build (realParams R run fx) cfg { w with fs := fs', cache := (build (realParams R run fx) cfg w order).cache } order) = [] :=
-  noop_rebuildK (goodK_real R run fx hR) cfg w order hwf hT hin hpl hsucc fs' hfs
+  noop_rebuildK (goodK_real R run fx U hR) cfg w order hwf hT hin hpl hsucc fs' hfs
 
-/-- the hypotheses are satisfiable: a rendering and a command semantics satisfying `RealKey` (the hash of C09's example,
-    commands that never succeed), an admissible target, an admissible key-state -/
-def exRender : Render := { H := C09.hexId, cmdR := fun c => c.salt, ohR := fun _ => [] }
+/-! ### the hypotheses are satisfiable by a command that copies what it reads
 
-def exRun : Cmd → View → RunRes := fun _ _ => ⟨false, [], []⟩
+  Two targets: `//a` copies its input file to its output, `//b` depends on `//a` and copies `//a`'s output to its own.
+  The command semantics `exRun` is "concatenate every dependency output and every input" (so the result does depend on the
+  content of the dependency); the output-hash string `exOhR` is the content itself when short and empty otherwise (a
+  function with a bounded image, like a digest); what occurs: the two targets, contents of at most 4 bytes. -/
 
-theorem exRealKey : RealKey exRender exRun :=
-  ⟨C09.hexId_injective, C09.hexId_no_underscore, fun _ => by show ([] : Bytes).length < 2 ^ 64; decide, fun _ _ _ _ _ => rfl,
-   fun c v h => by simp [exRun] at h, fun _ _ => rfl⟩
+def exVal (oh : OH Bytes) : Bytes := ((ohVals oh).filterMap (·.2)).flatten
 
-example : GoodK (realParams exRender exRun Fixes.current) (realAdm exRender) := goodK_real _ _ _ exRealKey
+def exOhR (oh : OH Bytes) : Bytes := if (exVal oh).length ≤ 4 then exVal oh else []
 
-example : (realAdm exRender).tgt (mkT [97] [⟨false, [111]⟩] [] false) ∧
-    (realAdm exRender).ks (keyState (mkT [97] [⟨false, [111]⟩] [] false) (fun _ => none) ([] : List (OH Bytes))) := by
-  have ht : (realAdm exRender).tgt (mkT [97] [⟨false, [111]⟩] [] false) := by
-    refine ⟨by unfold Small; decide, by unfold Small; decide, ⟨by decide, fun x hx => by simp [mkT] at hx⟩,
-      ⟨by decide, fun x hx => ?_⟩, by decide, ⟨by decide, fun x hx => by simp [mkT] at hx⟩, by simp [mkT], by unfold Small; decide⟩
-    simp [mkT, outDefR] at hx; subst hx; unfold Small; decide
-  exact ⟨ht, (goodK_real exRender exRun Fixes.current exRealKey).admKs _ _ _ ht (fun p hp => by simp [mkT] at hp) rfl⟩
+def exRender : Render := { H := C09.hexId, cmdR := fun c => c.salt, ohR := exOhR }
+
+def exRun : Cmd → View → RunRes := fun c v =>
+  ⟨true, c.writes.map fun o => (o, (v.deps.filterMap (·.2)).flatten ++ (v.inputs.filterMap (·.2)).flatten), []⟩
+
+def exLA : Lbl := [1]
+def exLB : Lbl := [2]
+def exOA : OutDef := ⟨false, [11]⟩
+def exOB : OutDef := ⟨false, [12]⟩
+
+def exTA : Target :=
+  { label := exLA, cmd := ⟨[1], 0, [exOA], [], false⟩, inputs := [[10]], outs := [exOA], deps := [], hdeps := [], ldeps := [],
+    fp := [], plat := [], noCache := false, checks := [] }
+
+def exTB : Target :=
+  { label := exLB, cmd := ⟨[2], 0, [exOB], [], false⟩, inputs := [], outs := [exOB], deps := [exLA], hdeps := [exLA], ldeps := [exLA],
+    fp := [], plat := [], noCache := false, checks := [] }
+
+def exU : Universe :=
+  { T := fun t => t = exTA ∨ t = exTB, V := fun v => v.length ≤ 4, O := fun oh => (exVal oh).length ≤ 4 }
+
+theorem exOhR_small (oh : OH Bytes) : Small (exOhR oh) := by
+  unfold exOhR Small
+  split
+  · rename_i h; exact Nat.lt_of_le_of_lt h (by decide)
+  · decide
+
+/-- the occurring key-states, listed -/
+theorem exKS_cases {ks : Exec.KeyState Bytes} (h : exU.KS ks) :
+    (∃ fs, (∀ v, fs [10] = some v → v.length ≤ 4) ∧ ks = keyState exTA fs ([] : List (OH Bytes))) ∨
+    (∃ fs oh, (exVal oh).length ≤ 4 ∧ ks = keyState exTB fs [oh]) := by
+  obtain ⟨t, fs, ohs, hT, hv, ho, hlen, rfl⟩ := h
+  rcases hT with rfl | rfl
+  · left
+    have : ohs = [] := List.eq_nil_of_length_eq_zero hlen
+    subst this
+    exact ⟨fs, fun v hfv => hv [10] (by simp [exTA]) v hfv, rfl⟩
+  · right
+    match ohs, hlen with
+    | [oh], _ => exact ⟨fs, oh, ho oh (by simp), rfl⟩
+
+theorem exRun_A (fs : FS) : exRun (keyState exTA fs ([] : List (OH Bytes))).cmd (viewOf (keyState exTA fs ([] : List (OH Bytes)))) =
+    ⟨true, [(exOA, match fs [10] with | some v => v | none => [])], []⟩ := by
+  simp only [exRun, viewOf, keyState, exTA, List.zip_nil_right, List.flatMap_nil, List.filterMap_nil, List.flatten_nil, List.nil_append,
+    List.map_cons, List.map_nil]
+  cases fs [10] <;> simp
+
+theorem exRun_B (fs : FS) (oh : OH Bytes) : exRun (keyState exTB fs [oh]).cmd (viewOf (keyState exTB fs [oh])) = ⟨true, [(exOB, exVal oh)], []⟩ := by
+  simp [exRun, viewOf, keyState, exTB, exVal]
+
+theorem exRealKey : RealKey exRender exRun exU where
+  hH := C09.hexId_injective
+  hU := C09.hexId_no_underscore
+  ohSmall := exOhR_small
+  runCongr := by
+    intro a b ha hb hc hi hd
+    rcases exKS_cases ha with ⟨fs, _, rfl⟩ | ⟨fs, oh, ho, rfl⟩ <;> rcases exKS_cases hb with ⟨fs', _, rfl⟩ | ⟨fs', oh', ho', rfl⟩
+    · -- the same target without dependencies: the (path, content) pairs of the one input agree
+      have := (hi ([10], fs [10])).1 (by simp [keyState, exTA])
+      have e : fs [10] = fs' [10] := by simpa [keyState, exTA] using this
+      rw [exRun_A, exRun_A, e]
+    · exact absurd hc (by simp [exRender, keyState, exTA, exTB])
+    · exact absurd hc (by simp [exRender, keyState, exTA, exTB])
+    · -- the same target with one dependency: equal output-hash strings of occurring hashes mean equal content
+      have h1 : exOhR oh = exOhR oh' := by
+        have := hd.subset (a := (exLA, exOhR oh)) (by simp [depPairs, keyState, exTB, exRender])
+        simpa [depPairs, keyState, exTB, exRender] using this
+      have h2 : exVal oh = exVal oh' := by simpa [exOhR, ho, ho'] using h1
+      rw [exRun_B, exRun_B, h2]
+  closed := by
+    intro ks hks _ nc
+    rcases exKS_cases hks with ⟨fs, hv, rfl⟩ | ⟨fs, oh, ho, rfl⟩
+    · rw [exRun_A]
+      show (exVal _).length ≤ 4
+      cases nc <;> cases hf : fs [10] <;> simp [mkRes, keyState, exTA, exVal, ohVals] <;> exact hv _ hf
+    · rw [exRun_B]
+      show (exVal _).length ≤ 4
+      cases nc <;> simpa [mkRes, keyState, exTB, exVal, ohVals] using ho
+  complete := by intro c v _; simp [exRun, List.map_map, Function.comp_def]
+  hermetic := fun _ _ => rfl
+
+example : GoodK (realParams exRender exRun Fixes.current) (realAdm exRender exU) := goodK_real _ _ _ _ exRealKey
+
+theorem exTA_adm : (realAdm exRender exU).tgt exTA := by
+  refine ⟨⟨by unfold Small; decide, by unfold Small; decide, ⟨by decide, fun x hx => ?_⟩, ⟨by decide, fun x hx => ?_⟩,
+    ⟨by decide, fun x hx => by simp [exTA] at hx⟩, by simp [exTA], ⟨by decide, fun x hx => by simp [exTA] at hx⟩, by simp [exTA],
+    by unfold Small; decide⟩, Or.inl rfl⟩
+  · simp [exTA] at hx; subst hx; unfold Small; decide
+  · simp [exTA, outDefR, exOA] at hx; subst hx; unfold Small; decide
+
+theorem exTB_adm : (realAdm exRender exU).tgt exTB := by
+  refine ⟨⟨by unfold Small; decide, by unfold Small; decide, ⟨by decide, fun x hx => by simp [exTB] at hx⟩, ⟨by decide, fun x hx => ?_⟩,
+    ⟨by decide, fun x hx => ?_⟩, by simp [exTB], ⟨by decide, fun x hx => by simp [exTB] at hx⟩, by simp [exTB],
+    by unfold Small; decide⟩, Or.inr rfl⟩
+  · simp [exTB, outDefR, exOB] at hx; subst hx; unfold Small; decide
+  · simp [exTB, exLA] at hx; subst hx; unfold Small; decide
+
+def exDefs : Defs := fun l => if l = exLA then some exTA else if l = exLB then some exTB else none
+
+/-- a workspace with the input file of `//a` (content `[7]`), an empty cache -/
+def exW : World Bytes := { defs := exDefs, fs := fun p => if p = [10] then some [7] else none, cache := emptyCache }
+
+theorem exDefs_cases {l : Lbl} {t : Target} (h : exDefs l = some t) : (l = exLA ∧ t = exTA) ∨ (l = exLB ∧ t = exTB) := by
+  unfold exDefs at h
+  split at h
+  · rename_i e; simp only [Option.some.injEq] at h; exact Or.inl ⟨e, h.symm⟩
+  · split at h
+    · rename_i e; simp only [Option.some.injEq] at h; exact Or.inr ⟨e, h.symm⟩
+    · cases h
+
+theorem exWF : WF exDefs [exLA, exLB] where
+  nodup := by decide
+  defined := by
+    intro l hl
+    simp only [List.mem_cons, List.not_mem_nil, or_false] at hl
+    rcases hl with rfl | rfl
+    · exact ⟨exTA, by simp [exDefs]⟩
+    · exact ⟨exTB, by simp [exDefs, exLA, exLB]⟩
+  label := by
+    intro l t h
+    rcases exDefs_cases h with ⟨rfl, rfl⟩ | ⟨rfl, rfl⟩ <;> rfl
+  hdeps := by
+    intro l _ t h
+    rcases exDefs_cases h with ⟨rfl, rfl⟩ | ⟨rfl, rfl⟩ <;> exact ⟨rfl, rfl, by decide⟩
+  topo := by
+    intro pre l suf ho t h d hd
+    rcases exDefs_cases h with ⟨rfl, rfl⟩ | ⟨rfl, rfl⟩
+    · simp [exTA] at hd
+    · simp only [exTB, List.mem_cons, List.not_mem_nil, or_false] at hd; subst hd
+      match pre, ho with
+      | [], ho => simp [exLA, exLB] at ho
+      | [x], ho => simp at ho; simp [ho.1]
+      | x :: y :: pre', ho => simp at ho
+  outsDisj := by
+    intro l₁ _ l₂ _ hne t₁ t₂ h₁ h₂ p hp
+    rcases exDefs_cases h₁ with ⟨rfl, rfl⟩ | ⟨rfl, rfl⟩ <;> rcases exDefs_cases h₂ with ⟨rfl, rfl⟩ | ⟨rfl, rfl⟩
+    · exact absurd rfl hne
+    · simp [outPaths, exTA, exTB, exOA, exOB] at hp ⊢; subst hp; decide
+    · simp [outPaths, exTA, exTB, exOA, exOB] at hp ⊢; subst hp; decide
+    · exact absurd rfl hne
+  inputsOff := by
+    intro l _ t h l' _ t' h' p hp
+    rcases exDefs_cases h with ⟨rfl, rfl⟩ | ⟨rfl, rfl⟩
+    · simp [exTA] at hp; subst hp
+      rcases exDefs_cases h' with ⟨rfl, rfl⟩ | ⟨rfl, rfl⟩ <;> simp [outPaths, exTA, exTB, exOA, exOB]
+    · simp [exTB] at hp
+  checksOff := by
+    intro l _ t h l' _ t' h' c hc
+    rcases exDefs_cases h with ⟨rfl, rfl⟩ | ⟨rfl, rfl⟩ <;> simp [exTA, exTB] at hc
+
+theorem exT_adm : ∀ l ∈ [exLA, exLB], ∀ t, exW.defs l = some t → (realAdm exRender exU).tgt t := by
+  intro l _ t h
+  rcases exDefs_cases h with ⟨rfl, rfl⟩ | ⟨rfl, rfl⟩
+  · exact exTA_adm
+  · exact exTB_adm
+
+theorem exInOk : InOk (realAdm exRender exU) exW.defs [exLA, exLB] exW.fs := by
+  intro l _ t h p hp v hv
+  simp only [exW] at hv
+  split at hv
+  · simp only [Option.some.injEq] at hv; subst hv; exact ⟨by unfold Small; decide, by show ([7] : Bytes).length ≤ 4; decide⟩
+  · cases hv
+
+/-- **a non-empty instance of `build_eq_clean_real`**: the two-target build over the real key, from an empty cache,
+    succeeds, and `//b`'s output is the content of `//a`'s input. -/
+theorem ex_build_succeeds :
+    succeeded (build (realParams exRender exRun Fixes.current) ⟨true, false⟩ exW [exLA, exLB]) [exLA, exLB] = true ∧
+    (build (realParams exRender exRun Fixes.current) ⟨true, false⟩ exW [exLA, exLB]).fs [12] = some [7] := by
+  have h := build_eq_clean_real exRender exRun Fixes.current exU exRealKey rfl ⟨true, false⟩ rfl exW [exLA, exLB] exWF exT_adm exInOk
+    (cacheSoundK_empty _ _) exW.fs (fun _ _ => rfl)
+  have hspec : ∀ l ∈ [exLA, exLB], (Spec.clean exRun exW.defs exW.fs [exLA, exLB]).ok l = some true := by decide
+  have hs := h.1.2 hspec
+  refine ⟨hs, ?_⟩
+  rw [h.2 hs exLB (by simp) exTB (by simp [exW, exDefs, exLA, exLB]) [12] (by simp [outPaths, exTB, exOB])]
+  decide
+
+/-- a non-empty history satisfying the hypotheses of `cacheSound_preserved_real` -/
+example : HistOKK (realParams exRender exRun Fixes.current) (realAdm exRender exU) exW [.build ⟨true, false⟩ [exLA, exLB]] :=
+  ⟨⟨rfl, exWF, exT_adm, exInOk⟩, trivial⟩
+
+theorem exPlain : Plain (realParams exRender exRun Fixes.current) ⟨true, false⟩ exW.defs [exLA, exLB] :=
+  ⟨rfl, rfl, rfl, rfl, fun l _ t h => by rcases exDefs_cases h with ⟨rfl, rfl⟩ | ⟨rfl, rfl⟩ <;> rfl⟩
+
+/-- **a non-empty instance of `noop_rebuild_real`**: after the two-target build above, the same build again — whatever
+    sits at the two output paths — executes nothing. -/
+theorem ex_noop_rebuild (fs' : FS) (hfs : ∀ p, p ≠ [11] → p ≠ [12] →
+      fs' p = (build (realParams exRender exRun Fixes.current) ⟨true, false⟩ exW [exLA, exLB]).fs p) :
+    executed (build (realParams exRender exRun Fixes.current) ⟨true, false⟩
+      { exW with fs := fs', cache := (build (realParams exRender exRun Fixes.current) ⟨true, false⟩ exW [exLA, exLB]).cache }
+      [exLA, exLB]) = [] := by
+  apply noop_rebuild_real exRender exRun Fixes.current exU exRealKey ⟨true, false⟩ exW [exLA, exLB] exWF exT_adm exInOk exPlain
+    ex_build_succeeds.1 fs'
+  intro p hp
+  apply hfs p
+  · intro e; subst e
+    exact hp exLA (by simp) exTA (by simp [exW, exDefs]) (by simp [outPaths, exTA, exOA])
+  · intro e; subst e
+    exact hp exLB (by simp) exTB (by simp [exW, exDefs, exLA, exLB]) (by simp [outPaths, exTB, exOB])
 
 end instantiated
 
